@@ -28,7 +28,8 @@ theorem no_lost_wakeup {n cap : Nat} {s : St} (hr : Reach n cap true s) (hq : Qu
     rw [holders_zero_of_quiescent s hq] at this
     have hrt : rtoken s = 0 := by
       unfold rtoken
-      rcases hq.2 with e | ⟨e, _⟩ <;> simp [e]
+      rcases hq.2.1 with e | ⟨e, _⟩ <;> simp [e]
+    have hct : ctoken s = 0 := by simp [ctoken, hq.2.2]
     have := h.occLe
     omega
   · intro hsl
@@ -42,8 +43,9 @@ pass its notification on); while the receiver sleeps and a message is queued, th
 notify the receiver. -/
 theorem wakeup_in_flight {n cap : Nat} {s : St} (hr : Reach n cap true s) :
     ((∃ i, Sleeping s i) → s.occ < s.cap →
-      s.rpc = .notify ∨ ∃ j, j < s.n ∧ s.inset j = false ∧
-        (s.spc j = .rm ∨ s.spc j = .try1 ∨ s.spc j = .try2 ∨ s.spc j = .cancel ∨ s.spc j = .pending)) ∧
+      s.rpc = .notify ∨ s.cpc = true ∨ ∃ j, j < s.n ∧ s.inset j = false ∧
+        (s.spc j = .rm ∨ s.spc j = .try1 ∨ s.spc j = .try2 ∨ s.spc j = .cancel ∨ s.spc j = .pending ∨
+          s.spc j = .cancelErr)) ∧
     (RSleeping s → 0 < s.msgs → ∃ j, j < s.n ∧ (s.spc j = .cancel ∨ s.spc j = .notifyRecv)) := by
   have h := reach_inv hr
   constructor
@@ -52,7 +54,12 @@ theorem wakeup_in_flight {n cap : Nat} {s : St} (hr : Reach n cap true s) :
     by_cases hrn : s.rpc = .notify
     · exact Or.inl hrn
     · right
+      cases hcp : s.cpc with
+      | true => exact Or.inl rfl
+      | false =>
+      right
       have hrt : rtoken s = 0 := by simp [rtoken, hrn]
+      have hct : ctoken s = 0 := by simp [ctoken, hcp]
       have hpos : 0 < holders s := by omega
       obtain ⟨j, hj, hjp⟩ := total_pos _ _ hpos
       refine ⟨j, hj, ?_⟩
@@ -73,12 +80,17 @@ theorem wakeup_in_flight {n cap : Nat} {s : St} (hr : Reach n cap true s) :
 /-- every sender that is not in the wait set and not idle has a step, and so has a receiver about to notify: together
 with `wakeup_in_flight`, a sleeping sender with a free slot is never in a state without a step -/
 theorem holder_can_move {s : St} (j : Nat) (hj : j < s.n) (hb : s.inset j = false)
-    (hp : s.spc j = .rm ∨ s.spc j = .try1 ∨ s.spc j = .try2 ∨ s.spc j = .cancel ∨ s.spc j = .pending) :
+    (hp : s.spc j = .rm ∨ s.spc j = .try1 ∨ s.spc j = .try2 ∨ s.spc j = .cancel ∨ s.spc j = .pending ∨
+      s.spc j = .cancelErr) :
     ∃ l, (step l s).isSome = true := by
-  rcases hp with e | e | e | e | e
+  rcases hp with e | e | e | e | e | e
   · exact ⟨.sRemove j, by simp [step, hj, e]⟩
-  · exact ⟨.sTry1 j, by by_cases h : s.occ < s.cap <;> simp [step, hj, e, h]⟩
-  · exact ⟨.sTry2 j, by by_cases h : s.occ < s.cap <;> simp [step, hj, e, h]⟩
+  · cases hcl : s.closed with
+    | false => exact ⟨.sTry1 j, by by_cases h : s.occ < s.cap <;> simp [step, hj, e, h, hcl]⟩
+    | true => exact ⟨.sTry1Closed j, by simp [step, hj, e, hcl]⟩
+  · cases hcl : s.closed with
+    | false => exact ⟨.sTry2 j, by by_cases h : s.occ < s.cap <;> simp [step, hj, e, h, hcl]⟩
+    | true => exact ⟨.sTry2Closed j, by simp [step, hj, e, hcl]⟩
   · by_cases hem : setEmpty s
     · exact ⟨.sCancel j 0, by simp [step, hj, e, hb, hem]⟩
     · have : ∃ k, k < s.n ∧ s.inset k = true := by
@@ -92,6 +104,29 @@ theorem holder_can_move {s : St} (j : Nat) (hj : j < s.n) (hb : s.inset j = fals
       obtain ⟨k, hk, hkb⟩ := this
       exact ⟨.sCancel j k, by simp [step, hj, e, hb, hem, hk, hkb]⟩
   · exact ⟨.sRepoll j, by simp [step, hj, e]⟩
+  · by_cases hem : setEmpty s
+    · exact ⟨.sCancelErr j 0, by simp [step, hj, e, hb, hem]⟩
+    · have : ∃ k, k < s.n ∧ s.inset k = true := by
+        apply Classical.byContradiction
+        intro hno
+        apply hem
+        intro k hk
+        cases hkb : s.inset k with
+        | false => rfl
+        | true => exact absurd ⟨k, hk, hkb⟩ hno
+      obtain ⟨k, hk, hkb⟩ := this
+      exact ⟨.sCancelErr j k, by simp [step, hj, e, hb, hem, hk, hkb]⟩
+
+/-- **closing wakes everybody**: once the mailbox has been closed and its `notify_all` has run, no sender sleeps; a sender
+that looks at the queue afterwards finds it closed and fails.  In particular, when nothing is in progress any more, every
+sender has returned. -/
+theorem closing_wakes_every_sender {n cap : Nat} {s : St} (hr : Reach n cap true s) (hcl : s.closed = true)
+    (hcp : s.cpc = false) : (∀ i, ¬ Sleeping s i) ∧ (Quiescent s → ∀ i, i < s.n → s.spc i = .idle) := by
+  have h := reach_inv hr
+  refine ⟨h.noSleepAfterClose hcl hcp, fun hq i hi => ?_⟩
+  rcases hq.1 i hi with e | ⟨e, hb⟩
+  · exact e
+  · exact absurd ⟨hi, e, hb⟩ (h.noSleepAfterClose hcl hcp i)
 
 /-! ### the variant that notifies only when the pop left the full state -/
 
@@ -121,7 +156,7 @@ def lostSchedule : List Label :=
 
 def quiescentB (s : St) : Bool :=
   (List.range s.n).all (fun i => s.spc i == .idle || (s.spc i == .pending && s.inset i)) &&
-    (s.rpc == .handler || (s.rpc == .pending && s.rreg))
+    (s.rpc == .handler || (s.rpc == .pending && s.rreg)) && !s.cpc
 
 /-- **notify_only_when_leaving_full_loses_a_wakeup** — with the weaker rule the model has a run that ends with nothing
 in progress, sender 3 asleep in the wait set and a free slot. -/
